@@ -134,7 +134,7 @@ func cmdNull() {
 			for _, r := range reps {
 				// nil pointer to the representation; the representation's own nil if it is a slice / map / pointer
 				cands := []reflect.Type{}
-				if r.gt != tBigPtr {
+				if !isBigPtr(r.gt) {
 					cands = append(cands, reflect.PtrTo(r.gt))
 				}
 				switch r.gt.Kind() {
@@ -191,8 +191,8 @@ func cmdNull() {
 			seenDest := map[string]bool{}
 			for _, r := range reps {
 				dt := r.gt
-				if dt == tBigPtr {
-					dt = tBig
+				if isBigPtr(dt) {
+					dt = dt.Elem()
 				}
 				if seenDest[dt.String()] {
 					continue
@@ -234,8 +234,8 @@ func cmdNull() {
 				}
 				mk := func() reflect.Value {
 					v := rr.mk(a)
-					if rr.gt == tBigPtr {
-						return v // *big.Int pre-filled
+					if isBigPtr(rr.gt) {
+						return v // *big.Int / *big.Float pre-filled
 					}
 					p := reflect.New(rr.gt)
 					p.Elem().Set(v)
